@@ -174,6 +174,10 @@ def generate():
     import gen_stateguards
     for b in gen_stateguards.generate()["broken"]:
         missing.append({"name": b, "file": "src/main.rs, src/sync/mod.rs", "regex": "", "owners": ["C08", "C15"]})
+    # the translated size filter (py/gen_sizefilter.py -> coq/gen/SizeFilter.v): a body outside the translated fragment is a broken tie of C16
+    import gen_sizefilter
+    for b in gen_sizefilter.generate()["broken"]:
+        missing.append({"name": b, "file": "src/sync/mod.rs", "regex": "fn should_filter_by_size: body outside the translated fragment", "owners": ["C16"]})
     changed = {n: {"now": v, "pinned": p, "owners": o, "file": fl} for n, (v, p, k, o, fl) in vals.items() if v != p}
     return {"values": {n: v for n, (v, p, k, o, fl) in vals.items()}, "missing": missing, "changed": changed,
             "rewritten": old != text}
